@@ -97,15 +97,26 @@ pub mod flex {
     }
 }
 
+// The type's own impls declare Flex(0) to be its nil value. A field that carries a custom codec - for either
+// direction - takes its nil-ness from `is_nil` / `nil` / `has_nil` or from being spelled `Option` on BOTH sides
+// (the attributes are documented as the way to give a custom-codec field a nil value), never from the type's own
+// impls: Flex fields therefore are always written and always required. What the round trip needs is that the
+// encoding and the decoding side agree on this.
 impl<C> Encode<C> for Flex {
     fn encode<W: Write>(&self, e: &mut Encoder<W>, _: &mut C) -> Result<(), encode::Error<W::Error>> {
         e.u8(self.0)?.ok()
+    }
+    fn is_nil(&self) -> bool {
+        self.0 == 0
     }
 }
 
 impl<'b, C> Decode<'b, C> for Flex {
     fn decode(d: &mut Decoder<'b>, ctx: &mut C) -> Result<Self, decode::Error> {
         flex::decode_any(d, ctx)
+    }
+    fn nil() -> Option<Self> {
+        Some(Flex(0))
     }
 }
 
